@@ -967,8 +967,429 @@ class C19(Prop):
         return 'one fixed history x all strings of length <= %d x capacities' % (4 if tier == 'quick' else 6)
 
 
+
+# ---------------------------------------------------------------------------
+# faults, growth, totality (C14, C09, C06)
+
+def fault_events(ev):
+    """kinds of the source failures among the events of one call"""
+    out = []
+    for e in ev:
+        m = re.match(r'^[rs]\d+:F(\d+)$', e)
+        if m:
+            out.append(m.group(1))
+    return out
+
+
+class C14(Prop):
+    id = 'C14'
+
+    def cases(self, tier, rng):
+        out = []
+        self.pairs = {}
+        n = 250 if tier == 'quick' else 3000
+        for f in self.fmts:
+            for _ in range(n):
+                cap = rng.choice([3, 4, 5, 7, 8, 13, 16, 32])
+                text = gen.fasta_file(rng, cap) if f == 'fa' else gen.fastq_file(rng, cap)
+                if rng.chance(1, 6):
+                    text = gen.malform(rng, f, text)
+                k = gen.n_items_bound(f, text)
+                ops = rng.choice([['N'] * k, gen.rnd_history(rng, text, f, maxlen=8)])
+                base = ['D%d' % rng.below(4) for _ in range(len(text) + 4)] if rng.chance(1, 2) else []
+                # a failure at the j-th read call, for every j up to a bound
+                nread = min(len(text) + 3, 14 if tier == 'quick' else 40)
+                for j in range(0, nread):
+                    kind = rng.range(1, 9)
+                    rs = (base[:j] if base else ['D%d' % (len(text) + 1)] * 0 + ['D%d' % 9999] * j) + ['F%d' % kind]
+                    out.append(gen.mkcase(f, cap, text, rs, None, gen.rnd_policy(rng), ops + ['N', 'N']))
+                # a failing seek at the i-th seek call
+                if any(o.startswith('J') for o in ops):
+                    for i in range(3):
+                        out.append(gen.mkcase(f, cap, text, base, ['ok'] * i + ['F%d' % rng.range(1, 9)], gen.rnd_policy(rng), ops + ['N']))
+                # interrupts: the same case with and without interrupted reads
+                plain = [x for x in base] or ['D%d' % rng.below(3) for _ in range(len(text) + 2)]
+                inter = []
+                for x in plain:
+                    for _ in range(rng.below(3) if rng.chance(1, 2) else 0):
+                        inter.append('I')
+                    inter.append(x)
+                a = gen.mkcase(f, cap, text, plain, None, 'std', ops)
+                b = gen.mkcase(f, cap, text, inter + ['I', 'I'], None, 'std', ops)
+                self.pairs[b] = a
+                out += [a, b]
+        return out
+
+    def project(self, pl):
+        return ev_proj(pl)
+
+    def oracle(self, res):
+        bad = abnormal(res)
+        f = fmt_of(res['case'])
+        for i, l in enumerate(res['impl']):
+            pl = parse_line(l)
+            fe = fault_events(pl['ev'])
+            toks = pl['out'].split(' ')
+            is_io = pl['kind'] == 'err' and len(toks) > 2 and toks[1] == 'io'
+            if fe:
+                if not is_io:
+                    bad.append('op#%d the source failed (kind %s) during this call but the call returned: %s' % (i, fe[0], pl['out'][:50]))
+                elif toks[2] != fe[-1]:
+                    bad.append('op#%d the source failed with kind %s but the call reports kind %s' % (i, fe[-1], toks[2]))
+            elif is_io:
+                bad.append('op#%d I/O error reported although the source did not fail during this call' % i)
+        # records delivered before the failure are the leading records of the input
+        bad += oracles.cursor_check(f, res, level='kind', check_pos=False)
+        return bad
+
+    def cross(self, results):
+        by = {r['case']: r for r in results}
+        bad = []
+        for b, a in getattr(self, 'pairs', {}).items():
+            if a in by and b in by:
+                oa = [full_proj(parse_line(l)) for l in by[a]['impl']]
+                ob = [full_proj(parse_line(l)) for l in by[b]['impl']]
+                if oa != ob:
+                    bad.append(({'case': b, 'impl': by[b]['impl'], 'spec': by[b]['spec'], 'model': by[b]['model'], 'noshrink': True,
+                                 'other_case': a, 'other_impl': by[a]['impl']},
+                                ['interrupted reads change the outcome (compared with the same case without interrupts)']))
+        return bad
+
+    def nontrivial(self, res):
+        return any(fault_events(parse_line(l)['ev']) or ':I' in l for l in res['impl'])
+
+    def rule(self, tier):
+        return ('random files x histories (next-only or mixed with sets/seeks): a failure of random kind injected at the j-th read call for every j '
+                'up to a bound, at the i-th seek call for i < 3, and random patterns of interrupted reads (each compared with the same case without '
+                'interrupts); oracle on the implementation trace: the call during which the source failed returns Io with that kind, no other call '
+                'returns Io, records before the failure are the leading records of the Spec stream; non-trivial = a failure or an interrupt occurred')
+
+
+def policy_answer(pol, c):
+    p = pol.split('.')
+    if p[0] == 'std':
+        return c * 2 if c < (1 << 23) else c + (1 << 23)
+    if p[0] == 'du':
+        a = int(p[1])
+        return c * 2 if c < a else c + a
+    if p[0] == 'dul':
+        a, lim = int(p[1]), int(p[2])
+        n = c * 2 if c < a else c + a
+        return n if n <= lim else None
+    if p[0] == 'plus':
+        k, lim = int(p[1]), int(p[2])
+        return c + k if c + k <= lim else None
+    if p[0] == 'ref':
+        return None
+    return None
+
+
+def needed_windows(fmt, text, spec_items):
+    """needed window of every record (DESIGN.md section 7): its bytes plus one look-ahead position
+    (FASTA always; FASTQ only for a last record without terminator)"""
+    starts = []
+    for it in spec_items:
+        if it['kind'] == 'rec' and it['pos'] != '-':
+            starts.append(int(it['pos'].split(':')[1]))
+    out = []
+    for i, s in enumerate(starts):
+        e = starts[i + 1] if i + 1 < len(starts) else len(text)
+        if fmt == 'fa':
+            out.append(e - s + 1)
+        else:
+            w = e - s
+            if i + 1 == len(starts):
+                # the last record: blank tail is not part of it; without final LF one look-ahead position
+                body = text[s:e]
+                stripped = body.rstrip(b'\r\n')
+                w = len(stripped) + (1 if body == stripped else 1 if body[len(stripped):].startswith(b'\r\n') or body[len(stripped):].startswith(b'\n') else 1)
+                w = len(stripped) + 1
+            out.append(w)
+    return out
+
+
+class C09(Prop):
+    id = 'C09'
+
+    def accepts_case(self, line):
+        return line.split(' ')[0] in ('fa', 'fq', 'pol')
+
+    def cases(self, tier, rng):
+        out = []
+        n = 1500 if tier == 'quick' else 20000
+        self.kind = {}
+        for f in self.fmts:
+            for _ in range(n):
+                cap = rng.choice([3, 4, 5, 6, 8, 10, 13, 16, 24])
+                text = gen.fasta_file(rng, cap) if f == 'fa' else gen.fastq_file(rng, cap)
+                k = gen.n_items_bound(f, text)
+                which = rng.below(5)
+                if which <= 1:
+                    pol = rng.choice(['std', 'du.%d' % rng.range(1, 12), 'plus.%d.100000' % rng.range(1, 5)])
+                    c = gen.mkcase(f, cap, text, gen.rnd_chunking(rng, len(text)), None, pol, ['N'] * k)
+                    self.kind[c] = 'exact'
+                elif which == 2:
+                    pol = rng.choice(['ref', 'dul.%d.%d' % (rng.range(1, 9), rng.range(4, 40)), 'plus.%d.%d' % (rng.range(1, 6), rng.range(4, 40)),
+                                      'scr.' + '.'.join(rng.choice(['n', str(rng.range(1, 60))]) for _ in range(rng.range(1, 4)))])
+                    c = gen.mkcase(f, cap, text, gen.rnd_chunking(rng, len(text)), None, pol, rng.choice([['N'] * k, ['S0'] * k]))
+                    self.kind[c] = 'limit'
+                elif which == 3:
+                    ops = ['N'] * k
+                    ops.insert(rng.below(len(ops) + 1), 'Y' + rng.choice(['std', 'du.7', 'plus.3.100000']))
+                    c = gen.mkcase(f, cap, text, gen.rnd_chunking(rng, len(text)), None, rng.choice(['std', 'du.3']), ops)
+                    self.kind[c] = 'swap'
+                else:
+                    c = gen.mkcase(f, cap, text, gen.rnd_chunking(rng, len(text)), None, 'std', ['S0'] * k)
+                    self.kind[c] = 'sets'
+                out.append(c)
+        # built-in policies on a grid around their thresholds
+        grid = sorted(set([1, 2, 3, 5, 7, 8, 15, 16, 17, 100, (1 << 23) - 1, 1 << 23, (1 << 23) + 1, 1 << 24, 3 << 23]))
+        out.append('pol std ' + ','.join(map(str, grid)))
+        for a in (1, 2, 5, 8, 16, 1000):
+            g = sorted(set(grid[:10] + [a - 1, a, a + 1, 2 * a]) - {0})
+            out.append('pol du.%d ' % a + ','.join(map(str, g)))
+            for lim in (a, 2 * a, 2 * a + 1, 3 * a, 50):
+                g2 = sorted(set(g + [lim - 1, lim, lim + 1, lim // 2, lim // 2 + 1, max(1, lim - a), lim - a + 1]) - {0})
+                out.append('pol dul.%d.%d ' % (a, lim) + ','.join(map(str, [x for x in g2 if x > 0])))
+        return out
+
+    def project(self, pl):
+        if pl['op'] == 'pol':
+            return 'pol ' + pl['out']
+        return ev_proj(pl)
+
+    def nontrivial(self, res):
+        return res['case'].startswith('pol ') or any(',g' in l or '=g' in l for l in res['impl'])
+
+    def oracle(self, res):
+        case = res['case']
+        t = case.split(' ')
+        bad = []
+        if t[0] == 'pol':
+            if not res['impl']:
+                return ['no output']
+            got = res['impl'][0].split(' ', 1)[1].split(',')
+            for c, g in zip(t[2].split(','), got):
+                want = policy_answer(t[1], int(c))
+                if (g == 'n') != (want is None) or (want is not None and g != str(want)):
+                    bad.append('built-in policy %s answers %s for capacity %s, documented size is %s' % (t[1], g, c, want))
+            return bad
+        bad = abnormal(res)
+        f = t[0]
+        cap = int(t[1])
+        pol = t[5]
+        asks = []
+        for i, l in enumerate(res['impl']):
+            pl = parse_line(l)
+            if pl['op'].startswith('Y'):
+                pol = pl['op'][1:]
+            gs = [e for e in pl['ev'] if e.startswith('g')]
+            refused = False
+            for g in gs:
+                a, r = g[1:].split(':')
+                a = int(a)
+                if a != cap:
+                    bad.append('op#%d policy asked with %d but the current capacity is %d' % (i, a, cap))
+                asks.append(a)
+                if r == 'n' or int(r) <= a:
+                    refused = True
+                else:
+                    cap = int(r)          # adopted (cross-checked by the offered sizes in the model diff)
+            is_limit = pl['kind'] == 'err' and pl['out'].split(' ')[1:2] == ['buflimit']
+            if is_limit != refused:
+                bad.append('op#%d buffer-limit error %s although the policy %s' % (
+                    i, 'returned' if is_limit else 'not returned', 'did not refuse' if not refused else 'refused'))
+        kind = getattr(self, 'kind', {}).get(case)
+        text = bytes.fromhex(t[2]) if t[2] != '-' else b''
+        items = oracles.parse_spec(f, res['spec'])
+        if kind in ('exact', 'sets', 'swap') and items and all(it['kind'] == 'rec' for it in items):
+            wins = needed_windows(f, text, items)
+            cap0 = int(t[1])
+            if wins and max(wins) <= cap0 and asks:
+                bad.append('every record fits the buffer (needed windows %s, capacity %d) but the policy was asked: %s' % (wins[:6], cap0, asks[:6]))
+        if kind in ('exact', 'swap', 'sets'):
+            bad += oracles.cursor_check(f, res, level='kind', check_pos=False)
+        return bad
+
+    def rule(self, tier):
+        return ('(a) files with record lengths around the capacity read with next() / read_record_set under recording policies (std, DoubleUntil, '
+                'additive): every grow_to argument must be the current capacity, no request at all when every record fits (needed window = record bytes '
+                '+ 1 look-ahead), the grow_to log and the offered read sizes are compared with the model; (b) refusing / limited / scripted policies: '
+                'BufferLimit iff the policy refused in that call; (c) a policy installed mid-stream (set_policy) leaves the record stream unchanged; '
+                '(d) the built-in policies on a grid of sizes around their thresholds and limits against the documented arithmetic and the generated '
+                'Coq definitions; non-trivial = a policy was consulted')
+
+
+class C06(Prop):
+    id = 'C06'
+
+    def hist(self, rng, text, f):
+        ops = gen.rnd_history(rng, text, f, maxlen=10)
+        # post-error / post-end calls of every kind
+        ops += [rng.choice(['N', 'O', 'S0', 'E1.2', 'I0', 'I1', 'P', 'J%d' % rng.below(6)]) for _ in range(rng.range(2, 6))]
+        return ops
+
+    def cases(self, tier, rng):
+        out = []
+        n = 2500 if tier == 'quick' else 40000
+        for f in self.fmts:
+            for _ in range(n):
+                cap = rng.choice([3, 4, 5, 6, 8, 9, 12, 16, 32])
+                text = gen.fasta_file(rng, cap) if f == 'fa' else gen.fastq_file(rng, cap)
+                m = rng.below(4)
+                if m == 0:
+                    text = gen.malform(rng, f, text)
+                elif m == 1:
+                    text = bytes(rng.below(256) for _ in range(rng.range(0, 24)))
+                rs = gen.rnd_chunking(rng, len(text))
+                if rng.chance(1, 3):
+                    j = rng.below(len(text) + 3)
+                    rs = (rs or ['D%d' % rng.below(4) for _ in range(len(text) + 3)])[:j] + ['F%d' % rng.range(1, 9)] + \
+                        ['D%d' % rng.below(4) for _ in range(len(text) + 3)]
+                ss = ['F%d' % rng.range(1, 9) if rng.chance(1, 4) else 'ok' for _ in range(4)] if rng.chance(1, 4) else None
+                pol = rng.choice(['std', 'ref', 'du.0', 'du.3', 'dul.4.9', 'plus.1.14', 'scr.n', 'scr.5.n.7', 'scr.2.3.4', 'plus.0.99'])
+                out.append(gen.mkcase(f, cap, text, rs, ss, pol, self.hist(rng, text, f)))
+            out += gen.exhaustive(f, 4 if tier == 'quick' else 6,
+                                  ops_fn=lambda s: ['S0', 'N', 'I0', 'E1.2', 'N', 'I1', 'O', 'S0', 'I0'], chunks=[[]])
+        return out
+
+    def project(self, pl):
+        return ev_proj(pl)
+
+    def oracle(self, res):
+        """no panic / hang; every record shown is a record of the input (membership in the Spec stream, in order)"""
+        f = fmt_of(res['case'])
+        bad = abnormal(res)
+        items = oracles.parse_spec(f, res['spec'])
+        keys = [oracles.rec_key(f, it['f']) if it['kind'] == 'rec' else None for it in items]
+        last = -1
+        faulted = False
+        for i, l in enumerate(res['impl']):
+            pl = parse_line(l)
+            if fault_events(pl['ev']):
+                faulted = True
+            c = pl['op'][0]
+            dumps = []
+            if pl['kind'] == 'rec':
+                dumps = [pl['out']]
+            elif pl['kind'] == 'set':
+                dumps = set_records(pl['out']) or []
+            if c in 'KJ' and pl['kind'] == 'ok':
+                last = -1
+            if c == 'I':
+                continue          # re-iteration shows records delivered before
+            for d in dumps:
+                k = oracles.rec_key(f, rec_fields(d))
+                idx = [j for j, x in enumerate(keys) if x == k and j > last]
+                if not idx:
+                    idx_any = [j for j, x in enumerate(keys) if x == k]
+                    what = 'out of order / repeated' if idx_any else 'not a record of the input'
+                    bad.append('%sop#%d returned a record that is %s: %s' % ('[after-fault] ' if faulted else '', i, what, d[:70]))
+                else:
+                    last = idx[0]
+        return bad
+
+    def nontrivial(self, res):
+        return len(res['impl']) > 2
+
+    def rule(self, tier):
+        return ('random inputs (well-formed, malformed, binary) x capacities 3..32 x chunkings, with a read failure at a random call (1/3), failing seeks '
+                '(1/16), and policies incl. refusing, non-growing (DoubleUntil(0), plus.0) and scripted ones; histories of up to 10 mixed operations followed '
+                'by 2-5 further calls of every kind (after errors / end of input), incl. iteration of sets after failed reads and seeks to saved positions; '
+                'plus a fixed history over all strings up to length %d; oracle: no panic, no hang (10 s watchdog), every record shown is a record of the '
+                'Spec stream in order; debug build (overflow checks on); non-trivial = more than two operations ran' % (4 if tier == 'quick' else 6))
+
+    def exhaustive_part(self, tier):
+        return 'one fixed 9-op history x all strings of length <= %d x capacities' % (4 if tier == 'quick' else 6)
+
+
+
+# ---------------------------------------------------------------------------
+# allocation in steady state (C18)
+
+class C18(Prop):
+    id = 'C18'
+    reader_cases = False
+    uses_model = False
+
+    def gen_cases(self, tier, rng):
+        out = []
+        n = 400 if tier == 'quick' else 5000
+        for _ in range(n):
+            f = rng.choice(['fa', 'fq'])
+            mode = rng.choice(['next', 'set'])
+            m = rng.choice([0, 1, 3, 8, 20, 57])
+            nl = rng.choice([1, 1, 2, 3, 5]) if f == 'fa' else 1
+            crlf = rng.chance(1, 4)
+            t = b'\r\n' if crlf else b'\n'
+
+            def rec(i, shrink=0):
+                h = b'id%d d' % (i % 10)
+                mm = max(0, m - shrink)
+                if f == 'fa':
+                    return b'>' + h + t + b''.join(rnd_seq(rng, mm).replace(b'*', b'A') + t for _ in range(max(1, nl - (shrink % 2))))
+                return b'@' + h + t + rnd_seq(rng, mm) + t + b'+' + t + rnd_seq(rng, mm).replace(b'-', b'I') + t
+            R = rng.choice([40, 80, 200])
+            # the first records are the largest ("further records that are no larger")
+            recs = [rec(i) for i in range(R // 4)] + [rec(i, rng.below(3) if rng.chance(1, 2) else 0) for i in range(R - R // 4)]
+            text = b''.join(recs)
+            one = len(rec(0))
+            cap = rng.choice([max(3, one // 2), one + 1, one + 2, 2 * one + 3, 5 * one, 64, 256])
+            warm = (R // 4) if mode == 'next' else 16
+            out.append('al %s %d %s %s %d' % (f, cap, gen.hx(text), mode, warm))
+        return out
+
+    def extra(self, tier, rng, stats):
+        cases = self.gen_cases(tier, rng)
+        d = os.path.join(WORK, self.id)
+        os.makedirs(d, exist_ok=True)
+        exe = os.path.join(vlib.HARNESS, 'target', 'debug', 'alloc')
+        shards = vlib.shard(cases, vlib.NPROC)
+        procs = []
+        for k, sh in enumerate(shards):
+            pth = os.path.join(d, 'al%d.cases' % k)
+            open(pth, 'w').write('\n'.join(sh) + '\n')
+            procs.append((sh, subprocess.Popen([exe, pth], stdout=subprocess.PIPE, stderr=subprocess.PIPE)))
+        F = []
+        samples = []
+        hist = {}
+        for sh, p in procs:
+            so, se = p.communicate(timeout=600)
+            blocks = vlib.parse_blocks(so.decode('utf-8', 'replace'))
+            while len(blocks) < len(sh):
+                blocks.append(['al crashed'])
+            for c, b in zip(sh, blocks):
+                stats['evaluations'] += 1
+                line = b[0] if b else 'al crashed'
+                fields = dict(x.split('=') for x in line.split(' ')[1:] if '=' in x)
+                fails = []
+                if 'allocs_after_warm' not in fields:
+                    fails.append('allocation harness produced no result: ' + line[:60])
+                else:
+                    if int(fields['calls']) > int(fields['warm']):
+                        stats['distinct_nontrivial'] += 1
+                    if int(fields['allocs_after_warm']) != 0:
+                        fails.append('%s heap allocations in steady state (first at call %s of %s, warm-up %s calls)' % (
+                            fields['allocs_after_warm'], fields['first_alloc_call'], fields['calls'], fields['warm']))
+                    if int(fields['grows_after_warm']) != 0:
+                        fails.append('the policy was consulted %s times in steady state' % fields['grows_after_warm'])
+                    k = c.split(' ')[1] + '/' + c.split(' ')[4]
+                    hist[k] = hist.get(k, 0) + 1
+                if fails:
+                    F.append(({'case': c[:3000], 'impl': b, 'model': None, 'spec': [], 'noshrink': True}, fails))
+                if len(samples) < 3:
+                    samples.append(c[:160] + ('...' if len(c) > 160 else '') + '  ->  ' + line)
+        return F, {'samples': samples, 'mode_hist': hist}
+
+    def rule(self, tier):
+        return ('inputs of 40-200 records whose first quarter are the largest (later ones equal or slightly smaller), FASTA (1-5 lines) and FASTQ, LF/CRLF, '
+                'capacities from half a record to many records (so warm-up includes buffer growth); read with next() or into ONE reused RecordSet; a '
+                'counting #[global_allocator] measures every call after the warm-up (first quarter of the records / 16 sets): zero allocations and zero '
+                'grow_to calls required; records are accessed through the borrowing accessors; non-trivial = calls were measured after the warm-up')
+
+
 REG = {}
-for cls in (C01, C02, C03, C04, C05, C10, C11, C12, C13, C17, C19, C20):
+for cls in (C01, C02, C03, C04, C05, C06, C09, C10, C11, C12, C13, C14, C17, C18, C19, C20):
     REG[cls.id] = cls
 
 
@@ -979,6 +1400,10 @@ def get(pid):
 
 
 def in_known_class(cls, res, fails):
+    if cls == 'fabricated-record-after-source-failure':
+        # F9: after a failed refill the readers infer the end of input from the not-full buffer;
+        # only 'not a record of the input' observations made after a source failure belong to the class
+        return bool(fails) and all(f.startswith('[after-fault] ') and 'not a record of the input' in f for f in fails)
     return False
 
 
